@@ -14,6 +14,7 @@ Examples: Typical Usage
 from __future__ import annotations
 
 import inspect
+import re
 import sys
 import typing
 
@@ -50,7 +51,9 @@ def forwardref(
 
     module = _resolve_module_name(ref, module)
     if module is not None:
-        name = name.replace(f"{module}.", "")
+        # Strip the module where it qualifies a name - not where its text merely ends
+        #   another identifier (`data.Cls` is not in module `a`).
+        name = re.sub(rf"(?<![\w.]){re.escape(module)}\.", "", name)
 
     return ForwardRef(
         name,
